@@ -78,6 +78,77 @@ def edge_dominates(g, blk, lab, target_block):
     return True
 
 
+def macrostep_boundary(rep, fb, rule):
+    """dequeue priority and spontaneous re-check in both engines (shared by C01 R01.3 and C08 R08.5)"""
+    for eq in ENGINES:
+        f = fb.fn(eq)
+        g = path.EHCFG(f)
+        eng = eq.split('::')[1]
+        ext = [n for n in f.walk() if n.get('callee', {}).get('q') == 'uscxml::MicroStepCallbacks::dequeueExternal']
+        inte = [n for n in f.walk() if n.get('callee', {}).get('q') == 'uscxml::MicroStepCallbacks::dequeueInternal']
+        if len(ext) != 1 or len(inte) != 1:
+            raise AnalysisBroken('%s: expected one dequeueExternal and one dequeueInternal site' % eq)
+        tb = g.pos[ext[0]['id']][0]
+        # (a) SPONTANEOUS test on its false edge
+        spont_blocks = []
+        int_blocks = []
+        for bid, b in g.blocks.items():
+            c = b.get('cond')
+            if c is None or c not in f.nodes:
+                continue
+            cn = f.nodes[c]
+            names = {s.get('ref', {}).get('name') for s in sub(cn)}
+            if '_flags' in names and any(tab.const_of(s) == 1 for s in sub(cn)) and any(s['k'] == 'BinaryOperator' and s.get('op') == '&' for s in sub(cn)):
+                spont_blocks.append(bid)
+            if any(s is inte[0] or s.get('id') == inte[0]['id'] for s in sub(cn)):
+                int_blocks.append(bid)
+        a_ok = any(edge_dominates(g, bid, False, tb) for bid in spont_blocks)
+        b_ok = any(edge_dominates(g, bid, False, tb) for bid in int_blocks)
+        rep.check(a_ok, rule, eng + '|spontaneous-before-external', locstr(ext[0]), 'dequeueExternal only on the false edge of the SPONTANEOUS test: %s' % a_ok)
+        rep.check(b_ok, rule, eng + '|internal-before-external', locstr(ext[0]), 'dequeueExternal only after dequeueInternal returned no event: %s' % b_ok)
+        # (c) flag relation
+        from .C13 import step_events, fl as flstr
+        defs = path.local_defs(f)
+        ev2, _ = step_events(fb, f, g, defs)
+        fi = path.FlagInterp(f, lambda n: strip(n) is not None and strip(n)['k'] == 'MemberExpr' and strip(n)['ref'].get('name') == '_flags')
+        interesting = {nid: lab for nid, lab in ev2.items() if lab in ('M:beforeMicroStep',)}
+        interesting[ext[0]['id']] = 'X:dequeueExternal'
+        interesting[inte[0]['id']] = 'X:dequeueInternal'
+
+        def retlab(n):
+            r = strip(n['c'][0]) if n.get('c') else None
+            return r['ref']['name'] if r and 'ref' in r else '?'
+        rel, explored = fi.relation(g, interesting, range(64), ret_label=retlab)
+        reach = {0}
+        work = [0]
+        while work:
+            x = work.pop()
+            for ret, out, evs in rel[x]:
+                if out not in reach:
+                    reach.add(out)
+                    work.append(out)
+        bad = {}
+        SPONT, FIN, TLF = 1, 16, 4
+        for init in reach:
+            for ret, out, evs in rel[init]:
+                if ret == 'USCXML_INITIALIZED':
+                    continue
+                if 'M:beforeMicroStep' in evs and not out & SPONT:
+                    bad.setdefault('microstep-without-spontaneous-recheck', []).append((init, ret, out, evs))
+                if init & SPONT and not out & SPONT and 'M:beforeMicroStep' in evs:
+                    bad.setdefault('spontaneous-cleared-after-transitions', []).append((init, ret, out, evs))
+                if 'X:dequeueExternal' in evs and init & SPONT and not (init & (FIN | TLF)):
+                    bad.setdefault('external-dequeued-while-spontaneous', []).append((init, ret, out, evs))
+                if 'X:dequeueExternal' in evs and 'X:dequeueInternal' not in evs:
+                    bad.setdefault('external-without-internal', []).append((init, ret, out, evs))
+        for k, lst in sorted(bad.items()):
+            b = lst[0]
+            rep.fail(rule, '%s|%s' % (eng, k), f.where(), '%s: from flags %s step() returns %s with flags %s after %s' % (k, flstr(b[0]), b[1], flstr(b[2]), sorted(b[3])))
+        if not bad:
+            rep.ok(rule, eng + '|flag-relation', '%d reachable flag values: a step that took transitions always leaves SPONTANEOUS set; external dequeue never with SPONTANEOUS set and always after the internal dequeue' % len(reach))
+
+
+
 def run(rep, tier):
     rep.rule('R08.1', 'lock set: every read or write of BasicEventQueue::_queue (class and subclasses) happens with that object\'s _mutex held (flow-sensitive lock sets, must-hold-on-entry across calls)')
     rep.rule('R08.2', 'FIFO ends: the only mutators of _queue are push_back (enqueue, deserialize), pop_front (dequeue) and clear (reset)')
@@ -172,77 +243,24 @@ def run(rep, tier):
                   'wait is in a loop re-reading _queue: %s; waits on the queue mutex: %s; mutex held: %s' % (cond_reads, same, held))
 
     # ---- R08.5
-    for eq in ENGINES:
-        f = fb.fn(eq)
-        g = path.EHCFG(f)
-        eng = eq.split('::')[1]
-        ext = [n for n in f.walk() if n.get('callee', {}).get('q') == 'uscxml::MicroStepCallbacks::dequeueExternal']
-        inte = [n for n in f.walk() if n.get('callee', {}).get('q') == 'uscxml::MicroStepCallbacks::dequeueInternal']
-        if len(ext) != 1 or len(inte) != 1:
-            raise AnalysisBroken('%s: expected one dequeueExternal and one dequeueInternal site' % eq)
-        tb = g.pos[ext[0]['id']][0]
-        # (a) SPONTANEOUS test on its false edge
-        spont_blocks = []
-        int_blocks = []
-        for bid, b in g.blocks.items():
-            c = b.get('cond')
-            if c is None or c not in f.nodes:
-                continue
-            cn = f.nodes[c]
-            names = {s.get('ref', {}).get('name') for s in sub(cn)}
-            if '_flags' in names and any(tab.const_of(s) == 1 for s in sub(cn)) and any(s['k'] == 'BinaryOperator' and s.get('op') == '&' for s in sub(cn)):
-                spont_blocks.append(bid)
-            if any(s is inte[0] or s.get('id') == inte[0]['id'] for s in sub(cn)):
-                int_blocks.append(bid)
-        a_ok = any(edge_dominates(g, bid, False, tb) for bid in spont_blocks)
-        b_ok = any(edge_dominates(g, bid, False, tb) for bid in int_blocks)
-        rep.check(a_ok, 'R08.5', eng + '|spontaneous-before-external', locstr(ext[0]), 'dequeueExternal only on the false edge of the SPONTANEOUS test: %s' % a_ok)
-        rep.check(b_ok, 'R08.5', eng + '|internal-before-external', locstr(ext[0]), 'dequeueExternal only after dequeueInternal returned no event: %s' % b_ok)
-        # (c) flag relation
-        from .C13 import step_events, fl as flstr
-        defs = path.local_defs(f)
-        ev2, _ = step_events(fb, f, g, defs)
-        fi = path.FlagInterp(f, lambda n: strip(n) is not None and strip(n)['k'] == 'MemberExpr' and strip(n)['ref'].get('name') == '_flags')
-        interesting = {nid: lab for nid, lab in ev2.items() if lab in ('M:beforeMicroStep',)}
-        interesting[ext[0]['id']] = 'X:dequeueExternal'
-        interesting[inte[0]['id']] = 'X:dequeueInternal'
-
-        def retlab(n):
-            r = strip(n['c'][0]) if n.get('c') else None
-            return r['ref']['name'] if r and 'ref' in r else '?'
-        rel, explored = fi.relation(g, interesting, range(64), ret_label=retlab)
-        reach = {0}
-        work = [0]
-        while work:
-            x = work.pop()
-            for ret, out, evs in rel[x]:
-                if out not in reach:
-                    reach.add(out)
-                    work.append(out)
-        bad = {}
-        SPONT, FIN, TLF = 1, 16, 4
-        for init in reach:
-            for ret, out, evs in rel[init]:
-                if ret == 'USCXML_INITIALIZED':
-                    continue
-                if 'M:beforeMicroStep' in evs and not out & SPONT:
-                    bad.setdefault('microstep-without-spontaneous-recheck', []).append((init, ret, out, evs))
-                if init & SPONT and not out & SPONT and 'M:beforeMicroStep' in evs:
-                    bad.setdefault('spontaneous-cleared-after-transitions', []).append((init, ret, out, evs))
-                if 'X:dequeueExternal' in evs and init & SPONT and not (init & (FIN | TLF)):
-                    bad.setdefault('external-dequeued-while-spontaneous', []).append((init, ret, out, evs))
-                if 'X:dequeueExternal' in evs and 'X:dequeueInternal' not in evs:
-                    bad.setdefault('external-without-internal', []).append((init, ret, out, evs))
-        for k, lst in sorted(bad.items()):
-            b = lst[0]
-            rep.fail('R08.5', '%s|%s' % (eng, k), f.where(), '%s: from flags %s step() returns %s with flags %s after %s' % (k, flstr(b[0]), b[1], flstr(b[2]), sorted(b[3])))
-        if not bad:
-            rep.ok('R08.5', eng + '|flag-relation', '%d reachable flag values: a step that took transitions always leaves SPONTANEOUS set; external dequeue never with SPONTANEOUS set and always after the internal dequeue' % len(reach))
+    macrostep_boundary(rep, fb, 'R08.5')
 
     # ---- R08.6
     rcv = fb.fn('uscxml::Interpreter::receive')
-    callees = {n['callee']['q'] for n in rcv.walk() if n.get('callee') and not n['callee'].get('ext', True)}
-    rep.check(any(q.endswith('::enqueueExternal') for q in callees), 'R08.6', 'Interpreter::receive', rcv.where(), 'receive() forwards to enqueueExternal (callees: %s)' % sorted(q for q in callees if 'uscxml::' in q)[:6])
+    callgraph = g_
+    pred = callgraph.reach([rcv])
+    ee0 = fb.fn('uscxml::InterpreterImpl::enqueueExternal')
+    direct = {n['callee']['q'] for n in rcv.walk() if n.get('callee') and n['callee']['q'].startswith('uscxml::InterpreterImpl::')}
+    via = all(q in ('uscxml::InterpreterImpl::enqueueExternal', 'uscxml::InterpreterImpl::receive') for q in direct) and bool(direct)
+    # the impl-level receive (if any) must end in enqueueExternal on every path
+    okpath = True
+    for q in direct:
+        if q.endswith('::receive'):
+            f2 = fb.fn(q)
+            g2 = cfgm.CFG(f2)
+            enq2 = [n['id'] for n in f2.walk() if n.get('callee', {}).get('q', '').endswith('::enqueueExternal')]
+            okpath = bool(enq2) and g2.can_reach(g2.entry_pos(), ['EXIT'], avoid=enq2) is None
+    rep.check(via and okpath and ee0.m in pred, 'R08.6', 'Interpreter::receive', rcv.where(), 'receive() forwards to %s and every path ends in enqueueExternal: %s' % (sorted(direct), okpath))
     ee = fb.fn('uscxml::InterpreterImpl::enqueueExternal')
     recv = [lock.expr_text(fb, strip(n['c'][0]['c'][0])) for n in ee.walk() if n['k'] == 'CXXMemberCallExpr' and n['callee']['q'].endswith('EventQueue::enqueue')]
     rep.check(recv == ['_externalQueue'], 'R08.6', 'InterpreterImpl::enqueueExternal', ee.where(), 'enqueueExternal enqueues into %s' % recv)
